@@ -2,10 +2,7 @@
 
 package quickfix
 
-import (
-	"bytes"
-	"time"
-)
+import "time"
 
 func init() {
 	verifRegister("C04_detect", VerifHarness_C04_detect)
@@ -339,8 +336,15 @@ func VerifHarness_C04_wire() {
 	T := ndInt("T", 20, 22)
 	r.setCounters(T, 5)
 	r.verifLoggedOnState(stInSession, T)
+	// the frames go through the stream parser, as on a connection: one parser for the whole exchange, every frame
+	// read with ReadMessage and handed to Incoming
+	src := &c12Uniform{k: 1 << 20}
+	p := &parser{reader: src, bigBuffer: make([]byte, 96)}
 	feed := func(m *Message) {
-		r.s.Incoming(r.s, fixIn{bytes: bytes.NewBuffer(m.build()), receiveTime: time.Now()})
+		src.data = append(src.data, m.build()...)
+		b, err := p.ReadMessage()
+		verifAssume(err == nil)
+		r.s.Incoming(r.s, fixIn{bytes: b, receiveTime: time.Now()})
 		r.pump()
 	}
 	gap := verifConc(ndInt("gap", 1, 2))
